@@ -22,11 +22,16 @@ pub struct ClaimCfg {
     pub hazard_boost: bool,
     /// top-level `cnf` must not be used (a holder key may be bound)
     pub no_top_cnf: bool,
+    /// include the rare very large containers (100-300 elements); switched off for properties
+    /// whose oracle performs hundreds of library calls per case
+    pub big: bool,
 }
 
 impl ClaimCfg {
-    pub const FULL: ClaimCfg = ClaimCfg { full_f64: true, path_safe_names: false, hazard_boost: false, no_top_cnf: true };
-    pub const SHORT_F64: ClaimCfg = ClaimCfg { full_f64: false, path_safe_names: false, hazard_boost: false, no_top_cnf: true };
+    pub const FULL: ClaimCfg = ClaimCfg { full_f64: true, path_safe_names: false, hazard_boost: false, no_top_cnf: true, big: true };
+    pub const SHORT_F64: ClaimCfg = ClaimCfg { full_f64: false, path_safe_names: false, hazard_boost: false, no_top_cnf: true, big: true };
+    /// for oracles that make hundreds of library calls per case
+    pub const LIGHT: ClaimCfg = ClaimCfg { full_f64: false, path_safe_names: false, hazard_boost: false, no_top_cnf: true, big: false };
 }
 
 const PLAIN_NAMES: &[&str] = &[
@@ -173,8 +178,8 @@ pub fn value_strategy(cfg: ClaimCfg, depth: u32) -> BoxedStrategy<Value> {
         // rare: containers whose size sits on / next to a power-of-two boundary, and very large ones
         3 => (edge_len(), small()).prop_map(|(n, v)| Value::Array(vec![v; n])),
         3 => (edge_len(), small()).prop_map(|(n, v)| Value::Object((0..n).map(|i| (format!("w{}", i), v.clone())).collect())),
-        1 => (100usize..300, small()).prop_map(|(n, v)| Value::Array((0..n).map(|i| if i % 7 == 0 { Value::from(i as u64) } else { v.clone() }).collect())),
-        1 => (66usize..140).prop_map(|n| Value::Array((0..n).map(|i| { let mut m = Map::new(); m.insert("k".into(), Value::from(i as u64)); Value::Object(m) }).collect())),
+        if cfg.big { 1 } else { 0 } => (100usize..300, small()).prop_map(|(n, v)| Value::Array((0..n).map(|i| if i % 7 == 0 { Value::from(i as u64) } else { v.clone() }).collect())),
+        if cfg.big { 1 } else { 0 } => (66usize..140).prop_map(|n| Value::Array((0..n).map(|i| { let mut m = Map::new(); m.insert("k".into(), Value::from(i as u64)); Value::Object(m) }).collect())),
     ];
     leaf.prop_recursive(depth, 48, 5, move |inner| {
         prop_oneof![
